@@ -34,7 +34,7 @@ SOLVER_COMPS = [
     ("multitask", "MultiTaskBCD", "QuadraticMultiTask", "L2_1"),
 ]
 ESTIMATORS = ["Lasso", "ElasticNet", "WeightedLasso", "GroupLasso", "MultiTaskLasso", "SparseLogisticRegression", "LinearSVC"]
-QUICK = {0, 1, 2, 3, 4, 5, 6, 8, 9, 10, 12, 13, 14, 16, 17, 19}
+QUICK = {0, 1, 2, 3, 4, 5, 6, 7, 8, 9, 10, 12, 13, 14, 16, 17, 19}
 CONTAINERS = ["C", "csc", "csc64"]
 EST_CONTAINERS = ["C", "csc", "csr", "list", "float32"]
 SPARSE_EXPLAIN = c13.EXPLAIN
